@@ -161,12 +161,12 @@ WORLD_D_COMPONENTS = {
     "stub": ["/bin/sh -c <command>: a simulated shell that splits the command line into words and runs the deterministic simulated compiler "
              "named by it (reads explicit and implicit inputs and #include lines, writes hashed outputs and gcc-style depfiles; a restat "
              "statement leaves an unchanged output alone)"],
-    "not_run": ["ninja -t tools, console pool, tracing, SIGINT"],
+    "not_run": ["ninja -t tools, tracing, SIGINT"],
 }
 PROPS["C18"] = {
     "level": "exploration",
     "rule": "seeded manifests (2-10 statements over rules cc / ccdep (depfile, deps=gcc) / ccrestat / ccgen / ccrsp (response file), explicit, implicit and order-only "
-            "inputs, two-output statements, pools of depth 1 and 2, a phony aggregate and default targets) x histories of {source and header "
+            "inputs, two-output statements, pools of depth 1 and 2 and the console pool, a phony aggregate and default targets) x histories of {source and header "
             "edits, output deletions, manifest edits that change a command line (variable, order of $in), injected failures with retry, "
             "immediate rebuilds} x -j1..4 x with/without --db x --no-regenerate x manifest regenerated by a build statement, each invocation a fresh executeNinjaBuildCommand under a "
             "seeded schedule. Oracles: outputs equal an independent clean-build evaluation after every successful invocation (C18.1); with "
